@@ -12,18 +12,19 @@ MANIFEST_ENTRY = {
     "category": "proof",
     "text": "Lean 4 theorems for the LR driver model over all tables/inputs/recognizers: every accepted tree is "
             "positionally well formed (ordered spans, children inside the parent, siblings ordered and disjoint, "
-            "in bounds) and its leaves chained through layout skipping tile the input; the same verified checkers "
+            "in bounds) and its leaves chained through layout skipping tile the input; for the GLR driver model every "
+            "tree of the packed forest has that leaf chain too (C08_glr_model_lossless, from forest soundness); the same verified checkers "
             "run on every LR and GLR implementation tree, together with value == input[start:end], layout+value "
             "reconstruction and the positions handed to actions",
-    "note": "trusted: Lean kernel; LR model validated by correspondence (C04); GLR trees are validated by the "
-            "checker on output (not by a model theorem); token values of regex recognizers are compared as strings "
+    "note": "trusted: Lean kernel; LR model validated by correspondence (C04); the spans of interior GLR nodes are validated by the "
+            "checker on output (not by a model theorem; finding F-POS-3), the leaf chain of GLR trees is a theorem about the GLR model (tied by C01/C02's correspondence); token values of regex recognizers are compared as strings "
             "by the harness; ignore_case values are outside the explored scope",
     "technique": "Lean 4 proof (position invariant of the LR stack) + verified checkers on implementation trees",
 }
 
 PROP = "C08"
 LEVEL = "proof"
-THEOREMS = ["C08_lr_posOK", "C08_lr_in_bounds", "C08_lr_lossless"]
+THEOREMS = ["C08_lr_posOK", "C08_lr_in_bounds", "C08_lr_lossless", "C08_glr_model_lossless"]
 META = {
     "rule": "cases = (grammar incl. empty productions at start/middle/end, layout mode ws | LAYOUT rule variants, "
             "LR|GLR, sentence with layout injected before/between/after tokens); non-trivial = tree containing an "
